@@ -9,7 +9,8 @@
 //! peer ops: o<sid> open; s<sid>:<hex> deliver chunk; f<sid> FIN; r<sid>:<code> RESET;
 //!   x<sid>:<code> STOP_SENDING; C<code> application close; T timeout;
 //!   gu<n> / gb<n> grant stream credit; gw<sid>:<n> grant write credit; cw<sid>:<n> set it
-//! api ops: <task>.<cmd>  (tasks: conn, drv, snd, q<sid>, q<sid>s)
+//! api ops: <task>.<cmd>  (tasks: conn, drv, snd, q<sid>, q<sid>s); `conn.U` / `drv.U` list and drain the
+//!   WebTransport uni streams accepted so far (`<session>:<hex>:<open|fin|rst<c>>,…`)
 #![allow(dead_code)]
 use crate::exec::*;
 use crate::sim::*;
@@ -300,6 +301,34 @@ fn accept_result(name: &str, ctx: &Ctx, r: Result<Option<h3::server::RequestReso
     }
 }
 
+/// `U`: take every WebTransport uni stream the connection has accepted so far (in order) and drain
+/// what is buffered/available on it: `<session id>:<hex>:<open|fin|rst<code>>,…` or `-`
+fn drain_wt_uni(acc: &mut h3::connection::AcceptedStreams<SimConn, Bytes>) -> String {
+    use h3::quic::{RecvStream, StreamErrorIncoming};
+    let mut parts = Vec::new();
+    for (sid, mut st) in acc.wt_uni_streams.drain(..) {
+        let id: String = format!("{:?}", sid).chars().filter(|c| c.is_ascii_digit()).collect();
+        let mut data = Vec::new();
+        let w = futures_util::task::noop_waker();
+        let mut cx = std::task::Context::from_waker(&w);
+        let end = loop {
+            match st.poll_data(&mut cx) {
+                std::task::Poll::Pending => break "open".to_string(),
+                std::task::Poll::Ready(Ok(Some(mut b))) => data.extend_from_slice(&b.copy_to_bytes(b.remaining())),
+                std::task::Poll::Ready(Ok(None)) => break "fin".to_string(),
+                std::task::Poll::Ready(Err(StreamErrorIncoming::StreamTerminated { error_code })) => break format!("rst{}", error_code),
+                std::task::Poll::Ready(Err(_)) => break "err".to_string(),
+            }
+        };
+        parts.push(format!("{}:{}:{}", id, to_hex(&data), end));
+    }
+    if parts.is_empty() {
+        "-".into()
+    } else {
+        parts.join(",")
+    }
+}
+
 async fn server_conn_task(builder: h3::server::Builder, mb: Mailbox, ctx: Ctx) {
     let name = format!("{}conn", ctx.prefix);
     ctx.begin(&name, "build");
@@ -355,6 +384,10 @@ async fn server_conn_task(builder: h3::server::Builder, mb: Mailbox, ctx: Ctx) {
                     Ok(()) => "ok".into(),
                     Err(e) => format!("err:{}", render_conn_err(&e)),
                 });
+            }
+            "U" => {
+                let r = drain_wt_uni(conn.inner.accepted_streams_mut());
+                ctx.log(&name, "U", r);
             }
             "D" => {
                 ctx.log(&name, "D", "ok".into());
@@ -735,6 +768,10 @@ async fn client_conn_task(mut builder: h3::client::Builder, mb: Mailbox, ctx: Ct
                     Ok(()) => "ok".into(),
                     Err(e) => format!("err:{}", render_conn_err(&e)),
                 });
+            }
+            "U" => {
+                let r = drain_wt_uni(drv.inner.accepted_streams_mut());
+                ctx.log(&name, "U", r);
             }
             "D" => {
                 ctx.log(&name, "D", "ok".into());
